@@ -27,13 +27,13 @@ func TestMain(m *testing.M) {
 	ev.Main(m, ev.Config{
 		Property: "C03",
 		Level:    "exploration",
-		Rule: "rapid state machine over a generated transaction-carrying block tree (<=4/6 branches, transactions of one branch re-placed on others): actions InsertChain(linked batch, parent-closed), SetHead(n<=head), restart, " +
+		Rule: "rapid state machine over a generated transaction-carrying block tree (<=4/6 branches, transactions of one branch re-placed on others): actions InsertChain(linked batch, parent-closed), InsertHeaderChain ahead of the blocks, SetHead(n<=head), restart, " +
 			"and on a separate header-only node InsertHeaderChain/SetHead; after every action the number index, header/body/receipt/TD retrievability, absence above the head and transaction lookups (both directions, for every transaction of the tree) are judged against the tree's parent links. " +
 			"non-trivial = a history with a reorganisation or a rewind after at least one canonical transaction; distinct by hash of tree+action list",
 		Assumptions: []string{
 			"fake-PoW engine; archive node (so SetHead never lacks state) for the full-import machine",
 			"transaction resolution is judged at core.GetTransaction, the level the RPC layer uses",
-			"full imports and header-first imports are exercised on separate nodes (callers never mix them on competing branches)",
+			"in the full-import machine headers are imported ahead of blocks only as extensions of the current header head (as a syncing node does); header branches that compete with the block head are the header-only machine's domain; body/receipt completion (InsertReceiptChain) is exercised on a third node",
 		},
 	})
 }
